@@ -121,7 +121,8 @@ pub fn run_c15(ctx: &Ctx) -> i32 {
         let text = if i == 0 {
             "package p.q; import a.B; interface I { Map<String, List<Foo[]>> f(in List<List<Bar>> x, int y); const int K = 1; }".to_string()
         } else {
-            gen_tree_text(rng, LayoutStyle::Spaces)
+            let style = *rng.pick(&[LayoutStyle::Spaces, LayoutStyle::Plain, LayoutStyle::Plain, LayoutStyle::WildNoDoc, LayoutStyle::Crlf]);
+            gen_tree_text(rng, style)
         };
         let one = match libx::parse_one(&text) {
             Ok(o) => o,
